@@ -444,6 +444,11 @@ Definition upd_tl (s : state) (t : list wr) (nf : N) : state :=
      s_allowed := s_allowed s; s_whub := s_whub s; s_pend := s_pend s; s_wait := s_wait s |}.
 (* txLog.SetOffset(precommittedTxLogSize): whatever was appended at or beyond that offset (the bytes of an
    attempt that failed after its append, stale records found by a reopen) is dropped *)
+Definition upd_ptls (s : state) (p : N) : state :=
+  {| s_cfg := s_cfg s; s_txlog := s_txlog s; s_clog := s_clog s; s_vlog := s_vlog s; s_vsize := s_vsize s;
+     s_aht := s_aht s; s_committed := s_committed s; s_calh := s_calh s; s_inmem := s_inmem s;
+     s_ialh := s_ialh s; s_ptls := p; s_tlnf := s_tlnf s; s_buf := s_buf s; s_ext := s_ext s;
+     s_allowed := s_allowed s; s_whub := s_whub s; s_pend := s_pend s; s_wait := s_wait s |}.
 Definition tl_set_offset (s : state) : state :=
   let k := N.to_nat (s_tlnf s) in
   let beyond := fun w => negb (s_ptls s <=? w_off w) in
@@ -491,12 +496,14 @@ Definition may_commit (s : state) : state * out :=
   let count := upto - s_committed s in
   let '(clog1, r) := commit_loop (N.to_nat count) (s_buf s) 0 count clog0 (0, zeros32) in
   let s1 := upd_clog s clog1 in
+  (* an attempt that does not complete rewinds the commit log to committedTxID (deferred SetOffset) *)
+  let s0 := upd_clog s clog0 in
   match r with
-  | Err e => (s1, Err e) | Panic => (s1, Panic)
+  | Err e => (s0, Err e) | Panic => (s0, Panic)
   | Ok (lid, lalh) =>
-      if negb (lid =? upto) then (s1, Err EFuse) else
+      if negb (lid =? upto) then (s0, Err EFuse) else
       match pb_advance (s_buf s) count with
-      | Err e => (s1, Err e) | Panic => (s1, Panic)
+      | Err e => (s0, Err e) | Panic => (s0, Panic)
       | Ok b' => (upd_committed (upd_buf s1 b') lid lalh, ok0)
       end
   end.
@@ -619,9 +626,23 @@ Definition discard (s : state) (n : N) : state * out :=
   | Err e => (s, Err e) | Panic => (s, Panic)
   | Ok a' =>
     let s1 := upd_aht s a' in
+    (* the tx log is cut at the end of the last transaction that is kept *)
+    let kept : res N :=
+      if s_committed s1 <? n - 1 then
+        do pe <- pb_read_ahead (s_buf s1) (n - s_committed s1 - 2); Ok (pe_off pe + pe_size pe)
+      else if 0 <? s_committed s1 then
+        match clog_entry s1 (s_committed s1) with
+        | Some ce => Ok (ce_off ce + ce_size ce)
+        | None => Err ENotFound
+        end
+      else Ok 0 in
+    match kept with
+    | Err e => (s1, Err e) | Panic => (s1, Panic)
+    | Ok keptsz =>
     match pb_recede (s_buf s1) cnt with
     | Err e => (s1, Err e) | Panic => (s1, Panic)
     | Ok b' =>
+      let s1 := if keptsz <? s_ptls s1 then tl_set_offset (upd_ptls s1 keptsz) else s1 in
       let s2 := upd_buf s1 b' in
       if n - 1 =? s_committed s2 then (upd_inmem s2 (s_committed s2) (s_calh s2), Ok (cnt, [])) else
       (* readAhead(int(inmem - committed - 1) - txsToDiscard) *)
@@ -634,6 +655,7 @@ Definition discard (s : state) (n : N) : state * out :=
       | Err e => (upd_inmem s2 (s_committed s2) (s_calh s2), Err e)
       | Panic => (s2, Panic)
       end
+    end
     end
   end.
 
